@@ -38,6 +38,14 @@ def make_server(spec, result):
         else:
             good = {"errors": [{"message": "bad request"}]}
         status = 200
+        if k == "redirect":
+            # the configured URL answers with a redirect that carries a Location; only that first answer is the peer's
+            # reply to the configured request - whatever lives at the Location was never configured
+            if cap.url.rstrip("/").endswith(fault.get("to", "/elsewhere").rstrip("/")) and fault.get("to") != "self":
+                raw = json.dumps(good).encode()
+                return 200, {"content-type": "application/json"}, raw
+            loc = {"self": cap.url}.get(fault.get("to"), fault.get("to", "/elsewhere"))
+            return fault["status"], {"content-type": "application/json", "location": loc}, json.dumps(good).encode()
         ct = spec.get("content_type", "application/json")
         headers = {"content-type": ct} if ct else {}
         raw = json.dumps(good, ensure_ascii=bool(spec.get("ensure_ascii", True))).encode()
@@ -55,6 +63,10 @@ def make_server(spec, result):
             pass
         elif k == "status":
             status = fault["status"]
+            if fault.get("body") is not None:
+                # an error status whose (JSON-labelled) body is not the object a well-behaved server would send
+                raw = [b"", b"<html><body>Bad Gateway</body></html>", raw[: len(raw) // 2], b'"unauthorized"', b"null", b"[1, 2]", b"17",
+                       b'{"errors": "nope"}'][fault["body"] % 8]
         elif k == "nonjson":
             raw = [b"<html>nope</html>", b"", b"{'data': 1}", b"\xff\xfe", b"<html><body>caf\xe9 d\xe9sol\xe9</body></html>",
                    b"\x1f\x8b\x08\x00\x00\x00\x00\x00\x00\x03\xab\x56\x4a\x49\x2c\x49\x54\xb2\xaa\xae\x05\x00"][fault.get("v", 0) % 6]
